@@ -60,7 +60,7 @@ func c17DagWorld() jose.World {
 }
 
 func c17DagGen(t *rapid.T) c17DagCase {
-	return c17DagCase{V: jose.Gen(t, jose.GenOpts{KeyTypes: []string{jose.P256, jose.P384, jose.P521, jose.RSA}, Refs: []string{"kid", "jwk"}})}
+	return c17DagCase{V: jose.Gen(t, jose.GenOpts{KeyTypes: []string{jose.P256, jose.P384, jose.P521, jose.RSA}, Refs: []string{"kid", "jwk"}, JWKMeta: true})}
 }
 
 func c17DagRun(x *h.Ctx, c c17DagCase) {
